@@ -31,7 +31,8 @@ type ReplInput struct {
 	Abort      []int            `json:"abort"` // heads announced with a hash that does not match their contents
 	Links      map[string][]int `json:"links"`
 	Behaviours []Behaviour      `json:"behaviours"`
-	Mutant     []string         `json:"mutant"` // ids of behaviours of the Pinned specification
+	Mutant     []string         `json:"mutant"`        // ids of behaviours of the Pinned specification
+	LongOutage int              `json:"long_outage_s"` // thorough: one run in which nobody provides the blocks for this many seconds
 }
 
 type reqKey struct{}
@@ -792,6 +793,53 @@ func (r *rpRun) loadCancelled(b Behaviour, idx int, want []int) {
 	}
 }
 
+// longOutage: a request is made while nobody provides the blocks; the outage lasts long (fetches that give up
+// after a while must not count as done); then the provider is back and the request is made again.
+func (r *rpRun) longOutage(d time.Duration) {
+	if err := r.setup("outage"); err != nil {
+		r.res.Inconclusive = append(r.res.Inconclusive, r.bid+": setup: "+err.Error())
+		return
+	}
+	defer r.teardown()
+	r.res.Behaviours++
+	a := r.nodes["a"].P.Name
+	for _, n := range []string{"b", "c", "m"} {
+		r.w.Cut(a, r.nodes[n].P.Name)
+	}
+	final := r.in.ReqHeads[fmt.Sprint(r.in.NReq)]
+	heads := func() []ipfslog.Entry {
+		hs := []ipfslog.Entry{}
+		for _, id := range final {
+			hs = append(hs, copyEntry(r.entries[id]))
+		}
+		return hs
+	}
+	ctx1, cancel1 := context.WithCancel(context.Background())
+	_ = r.a.S.Sync(ctx1, heads())
+	time.Sleep(500 * time.Millisecond)
+	cancel1() // the caller gives up; the outage goes on
+	time.Sleep(d)
+	for _, n := range []string{"b", "c", "m"} {
+		r.w.Heal(a, r.nodes[n].P.Name)
+	}
+	for _, m := range r.w.Bag() {
+		r.w.Take(m.ID)
+	}
+	_ = r.a.S.Sync(context.Background(), heads())
+	if err := sim.Settle(8*time.Second, r.nodes["a"]); err != nil {
+		r.violate("wedged", fmt.Sprintf("after an outage of %s the replica does not come to rest: %v", d, err), nil, r.a.ReplStats())
+		return
+	}
+	r.res.Comparisons++
+	want, got := r.reach(final), r.logIDs()
+	for _, id := range want {
+		if !contains(got, id) {
+			r.violate("missing", fmt.Sprintf("entry %d never becomes visible after the blocks had been unobtainable for %s and the request was made again", id, d), want, got)
+			break
+		}
+	}
+}
+
 func replicatorCmd(args []string) int {
 	in := &ReplInput{}
 	if len(args) < 2 || readJSON(args[0], in) != nil {
@@ -806,6 +854,10 @@ func replicatorCmd(args []string) int {
 	for i, b := range in.Behaviours {
 		r := &rpRun{in: in, res: res, bid: b.ID}
 		r.run(b, i)
+	}
+	if in.LongOutage > 0 && in.Dag == "A" {
+		r := &rpRun{in: in, res: res, bid: "long-outage"}
+		r.longOutage(time.Duration(in.LongOutage) * time.Second)
 	}
 	return res.write(args[1])
 }
